@@ -216,6 +216,13 @@ Section Split.
     destruct (Nat.leb_spec (Nat.div (sec_index s + 2 + 1) 2) (Nat.div (length (secs s) - 1) 2)); [lia|].
     injection H as <-. cbn. eauto.
   Qed.
+  (* when the sections are stopped (by stop_sections or by the resolver) no offset stays registered: what is analysed or run
+     afterwards is the whole file, whose lines are the file's lines *)
+  Theorem stop_clears_the_offset s s' :
+    stack s <> [] -> (sstep is_marker s Stop = Some s' \/ sstep is_marker s Resolve = Some s') -> line_offset s' = 0%Z.
+  Proof.
+    intros Hs [H|H]; cbn [sstep] in H; destruct (stack s) as [|top rest]; try congruence; inversion H; reflexivity.
+  Qed.
 End Split.
 
 (* non-vacuity: a three-part file with the default pattern *)
